@@ -249,8 +249,11 @@ theorem newRev_fresh (d : Document) (author date : Str) (bs : List Block) (n : N
     k < (Sess.open d author date).nextRev + 1 := by
   have h1 := id_le_maxRevIdNodes (allNodesBlocks bs) 0 n rev k hn hform hk
   have h2 := (foldl_max_ge (fun bs => maxRevIdNodes (allNodesBlocks bs)) (docParts (normalize d)) 0).2 bs hbs
-  have h3 : (Sess.open d author date).nextRev =
-      (docParts (normalize d)).foldl (fun m bs => max m (maxRevIdNodes (allNodesBlocks bs))) 0 := rfl
+  have h3 : (Sess.open d author date).nextRev ≥
+      (docParts (normalize d)).foldl (fun m bs => max m (maxRevIdNodes (allNodesBlocks bs))) 0 := by
+    show scanRevIds (normalize d) ≥ _
+    unfold scanRevIds
+    exact Nat.le_max_left _ _
   simp only [maxRevIdNodes] at h2 h3
   omega
 
